@@ -62,6 +62,9 @@ func (Area) Gen(r *rand.Rand, tier string, emit func(string)) {
 	// and concurrent pool.New calls with per-call options on defaults with spare capacity (added for seeded C18-m5 / C18-m6)
 	emit("race grpcwebfail")
 	emit("race poolopts")
+	// concurrent transcoded requests whose Content-Type / Accept are registered media types written non-canonically
+	// (parameters, other case): one StandardTranscoder is shared by all requests of a bridge (seeded C18-m7)
+	emit("race bindmime")
 	n := 2
 	if tier == "thorough" {
 		n = 12
@@ -156,6 +159,8 @@ func (Area) Exec(input string) string {
 		grpcWebDeadline(f[2] == "1")
 	case "resolvers":
 		resolvers()
+	case "bindmime":
+		bindMime()
 	case "grpcwebfail":
 		grpcWebFail()
 	case "poolopts":
@@ -544,6 +549,34 @@ func stragglerHTTP() {
 	close(w.release)
 	<-done
 	time.Sleep(50 * time.Millisecond)
+}
+
+// bindMime: many concurrent transcoded HTTP requests through ONE TranscodedHTTPBridge (one shared StandardTranscoder) with
+// Content-Type / Accept values that name a registered media type in many different spellings, each seen for the first time
+// by some request while others are being bound.
+func bindMime() {
+	hb := webbridge.NewTranscodedHTTPBridge(fixedRouter{unaryTarget("t")}, webbridge.TranscodedHTTPBridgeOpts{})
+	var wg sync.WaitGroup
+	for g := 0; g < 6; g++ {
+		wg.Add(1)
+		go func(g int) {
+			defer wg.Done()
+			for i := 0; i < 60; i++ {
+				ct := []string{"application/json", "Application/JSON", "application/json; charset=utf-8", "application/JSON;q=1",
+					"application/json ; a=b", "APPLICATION/json;charset=UTF-8"}[(g+i)%6]
+				if i%2 == 0 {
+					ct += fmt.Sprintf("; n=%d-%d", g, i) // a spelling nobody has sent before
+				}
+				ctx, cancel := context.WithTimeout(context.Background(), 20*time.Millisecond)
+				req := httptest.NewRequest("POST", "/x", strings.NewReader("{}")).WithContext(ctx)
+				req.Header.Set("Content-Type", ct)
+				req.Header.Set("Accept", ct)
+				hb.ServeHTTP(httptest.NewRecorder(), req)
+				cancel()
+			}
+		}(g)
+	}
+	wg.Wait()
 }
 
 // failRouter fails every lookup, as a router does for a service that was just removed.
